@@ -219,6 +219,13 @@ func (t *objectType) EqualityAttributes() hash.StringHash {
 	for tp != nil {
 		if tp.equality != nil {
 			eqa = append(eqa, tp.equality...)
+		} else {
+			// No equality declared at this level: all its attributes except constants participate
+			tp.attributes.EachPair(func(k string, a interface{}) {
+				if a.(px.Attribute).Kind() != constant {
+					eqa = append(eqa, k)
+				}
+			})
 		}
 		tp = tp.resolvedParent()
 	}
